@@ -9,7 +9,8 @@ Modules
   ranged.py    C23 scenario: open_from / read_from / read_range / read / readexactly on LocalAsyncFS,
                GoogleStorageAsyncFS, S3AsyncFS, AzureAsyncFS (all real) over simulated transports.
   fakes.py     the simulated transports (GCS range server under hailtop.httpx feeding a real aiohttp.StreamReader, fake
-               boto3 client, fake azure blob client); registered with shim.fake_module from ranged.py at import.
+               boto3 client, fake azure blob client); installed from ranged.py at import as attributes of the shim's stub
+               modules (pyspark is marked absent so that aiogoogle.user_config takes its ImportError branch).
   util.py      InlinePool, drain_tasks (no coroutine outlives its run), SeededModuleRandom (retry jitter from a stream).
   registry.py  ENGINE + CHECKS for C22 and C23.
 
